@@ -753,6 +753,8 @@ def call_builtin_type(interp, fn, args, kwargs, frame):
   if fn is range:
     if all(is_concrete(a) for a in args):
       return range(*args)
+    if any(interp.to_z3(a) is None for a in args):
+      raise unsupported('range over a value that is not an integer')
     if len(args) == 1:
       n = interp.to_z3(args[0])
       return I.SymIter(lambda it: z3.If(n > 0, n, 0), lambda it, i: SInt(i))
